@@ -2,7 +2,7 @@
    Property theorems only.  Values: Model/KeySpec.v (kval, kwf, canon, vcmp, tcmp, lex_cmp);
    code model: Model/Key.v (enc, enc_tuple, dec, dec_cols) over the prefixes regenerated from
    src/encoding/key.rs (Gen/KeyPrefix.v); recorded defect classes: Model/KeyKnown.v.
-   good v = kwf v && known_free v  (a well-formed input outside defect classes 1-3). *)
+   good v = kwf v && known_free v  (a well-formed input outside the recorded defect class 3). *)
 From Coq Require Import ZArith List Bool.
 From TV Require Import Lib.MachInt Gen.KeyPrefix Model.KeySpec Model.Key Model.KeyKnown Proof.KeyProps.
 Import ListNotations.
@@ -64,21 +64,28 @@ Theorem vcmp_float :
     vcmp (KS (SFloat x)) (KS (SFloat y)) = (sm64 x ?= sm64 y).
 Proof. exact vcmp_float_l. Qed.
 
-(* the recorded defect classes are genuine failures of the property in the faithful model *)
-Theorem class1_refuted :
-  exists a b, kwf a = true /\ kwf b = true /\ orderable a = true /\ orderable b = true
-    /\ kclass_of a = 1 /\ known_free b = true
-    /\ lex_cmp (enc a) (enc b) <> vcmp a b
-    /\ dec 10 (enc a) <> ROk (canon a) (blen (enc a)).
-Proof. exact class1_refuted_l. Qed.
+(* vector components and JSON numbers are ordered by IEEE-754 totalOrder on bit patterns
+   (tot32 / tot64 inside vcmp) and round-trip bit-exactly (canon leaves them alone).  totalOrder
+   refines the numeric order; NaNs with the sign bit sort below, the others above, every non-NaN *)
+Theorem tot32_refines :
+  forall x y, in_u 32 x = true -> in_u 32 y = true -> sm32 x < sm32 y -> tot32 x < tot32 y.
+Proof. exact tot32_refines_l. Qed.
+Theorem tot64_refines :
+  forall x y, in_u 64 x = true -> in_u 64 y = true -> sm64 x < sm64 y -> tot64 x < tot64 y.
+Proof. exact tot64_refines_l. Qed.
+Theorem tot32_nan :
+  forall x y, in_u 32 x = true -> in_u 32 y = true -> is_nan32 x = true -> is_nan32 y = false ->
+    if neg32 x then tot32 x < tot32 y else tot32 y < tot32 x.
+Proof. exact tot32_nan_l. Qed.
+Theorem tot64_nan :
+  forall x y, in_u 64 x = true -> in_u 64 y = true -> is_nan64 x = true -> is_nan64 y = false ->
+    if neg64 x then tot64 x < tot64 y else tot64 y < tot64 x.
+Proof. exact tot64_nan_l. Qed.
 
-Theorem class2_refuted :
-  exists a b, kwf a = true /\ kwf b = true /\ orderable a = true /\ orderable b = true
-    /\ kclass_of a = 2 /\ known_free b = true
-    /\ lex_cmp (enc a) (enc b) <> vcmp a b
-    /\ dec 10 (enc a) <> ROk (canon a) (blen (enc a)).
-Proof. exact class2_refuted_l. Qed.
-
+(* the recorded defect class 3 is a genuine failure of the property in the faithful model.
+   (Classes 1 and 2 of the first round -- -0.0 / sign-bit NaN in encode_vector and encode_json
+   Number -- were repaired in /repo commit 22060f5; those inputs are now covered by the
+   theorems above, see c26_witness_fixed.) *)
 Theorem class3_refuted :
   exists a b c, kwf a = true /\ kwf b = true /\ kwf c = true
     /\ orderable a = true /\ orderable b = true /\ orderable c = true
@@ -113,6 +120,18 @@ Example c26_witness_encodings :
   /\ lex_cmp (enc_tuple [KS (SText [97]); KS (SInt 2)]) (enc_tuple [KS (SText [97; 0]); KS (SInt 1)]) = Lt.
 Proof. vm_compute. repeat split. Qed.
 
+(* the inputs of the repaired defects (vector / JSON number -0.0 and sign-bit NaN) are now inside
+   the theorems' domain, round-trip bit-exactly and sort where totalOrder puts them *)
+Example c26_witness_fixed :
+  good (KS (SVector [2147483648])) = true /\ good (KS (SJson (JNum 9223372036854775808))) = true
+  /\ good (KS (SVector [4290772992])) = true
+  /\ dec 10 (enc (KS (SVector [2147483648; 4290772992]))) = ROk (KS (SVector [2147483648; 4290772992])) 13
+  /\ dec 10 (enc (KS (SJson (JNum 9223372036854775808)))) = ROk (KS (SJson (JNum 9223372036854775808))) 9
+  /\ lex_cmp (enc (KS (SVector [3212836864]))) (enc (KS (SVector [2147483648]))) = Lt     (* -1.0 < -0.0 *)
+  /\ lex_cmp (enc (KS (SVector [2147483648]))) (enc (KS (SVector [0]))) = Lt              (* -0.0 < +0.0 *)
+  /\ lex_cmp (enc (KS (SVector [4290772992]))) (enc (KS (SVector [4286578688]))) = Lt.    (* -NaN < -inf *)
+Proof. vm_compute. repeat split. Qed.
+
 Check enc_order : forall a b, good a = true -> good b = true -> orderable a = true -> orderable b = true -> lex_cmp (enc a) (enc b) = vcmp a b.
 Check enc_tuple_order : forall xs ys, forallb good xs = true -> forallb good ys = true -> forallb orderable xs = true -> forallb orderable ys = true -> lex_cmp (enc_tuple xs) (enc_tuple ys) = tcmp xs ys.
 Check dec_enc : forall a rest fuel, good a = true -> (ksize a <= fuel)%nat -> dec fuel (enc a ++ rest) = ROk (canon a) (blen (enc a)).
@@ -123,8 +142,10 @@ Check enc_tuple_injective : forall xs ys, forallb good xs = true -> forallb good
 Check kclass_of_zero : forall v, kclass_of v = 0 <-> known_free v = true.
 Check vcmp_int : forall x y, vcmp (KS (SInt x)) (KS (SInt y)) = (x ?= y).
 Check vcmp_float : forall x y, in_u 64 x = true -> in_u 64 y = true -> is_nan64 x = false -> is_nan64 y = false -> vcmp (KS (SFloat x)) (KS (SFloat y)) = (sm64 x ?= sm64 y).
-Check class1_refuted : exists a b, kwf a = true /\ kwf b = true /\ orderable a = true /\ orderable b = true /\ kclass_of a = 1 /\ known_free b = true /\ lex_cmp (enc a) (enc b) <> vcmp a b /\ dec 10 (enc a) <> ROk (canon a) (blen (enc a)).
-Check class2_refuted : exists a b, kwf a = true /\ kwf b = true /\ orderable a = true /\ orderable b = true /\ kclass_of a = 2 /\ known_free b = true /\ lex_cmp (enc a) (enc b) <> vcmp a b /\ dec 10 (enc a) <> ROk (canon a) (blen (enc a)).
+Check tot32_refines : forall x y, in_u 32 x = true -> in_u 32 y = true -> sm32 x < sm32 y -> tot32 x < tot32 y.
+Check tot64_refines : forall x y, in_u 64 x = true -> in_u 64 y = true -> sm64 x < sm64 y -> tot64 x < tot64 y.
+Check tot32_nan : forall x y, in_u 32 x = true -> in_u 32 y = true -> is_nan32 x = true -> is_nan32 y = false -> if neg32 x then tot32 x < tot32 y else tot32 y < tot32 x.
+Check tot64_nan : forall x y, in_u 64 x = true -> in_u 64 y = true -> is_nan64 x = true -> is_nan64 y = false -> if neg64 x then tot64 x < tot64 y else tot64 y < tot64 x.
 Check class3_refuted : exists a b c, kwf a = true /\ kwf b = true /\ kwf c = true /\ orderable a = true /\ orderable b = true /\ orderable c = true /\ kclass_of a = 3 /\ known_free b = true /\ known_free c = true /\ dec 10 (enc a) <> ROk (canon a) (blen (enc a)) /\ (exists r, r <> [] /\ enc a = enc b ++ r) /\ lex_cmp (enc_tuple [b; c]) (enc_tuple [a; c]) <> tcmp [b; c] [a; c].
 
 Print Assumptions enc_order.
@@ -137,6 +158,8 @@ Print Assumptions enc_tuple_injective.
 Print Assumptions kclass_of_zero.
 Print Assumptions vcmp_int.
 Print Assumptions vcmp_float.
-Print Assumptions class1_refuted.
-Print Assumptions class2_refuted.
+Print Assumptions tot32_refines.
+Print Assumptions tot64_refines.
+Print Assumptions tot32_nan.
+Print Assumptions tot64_nan.
 Print Assumptions class3_refuted.
